@@ -194,12 +194,15 @@ def generate(info):  # pylint: disable=too-many-locals,too-many-statements
 
     # ---- main: the command interpreter
     w('static std::string services_of(const dzn::locator& l) { std::string s; for (auto& kv : l.services) '
-      's += kv.first.first + "|" + kv.first.second + ";"; return s; }')
+      '{ std::ostringstream o; o << kv.first.first << "|" << kv.first.second << "=" << (std::uintptr_t)kv.second << ";"; s += o.str(); } return s; }')
     w('int main() {')
     w('  std::string line;')
     w('  while (std::getline(std::cin, line)) {')
     w('    std::istringstream is(line); std::string cmd; is >> cmd;')
     w('    if (cmd.empty() || cmd[0] == \'#\') continue;')
+    w('    if (!sh && cmd != "locator" && cmd != "skipcomp" && cmd != "construct" && cmd != "construct2" '
+      '&& cmd != "force" && cmd != "mark" && cmd != "sleep" && cmd != "quit") { '
+      'vf::note("no-shell", "\\"cmd\\":\\"" + cmd + "\\""); continue; }')
     w('    try {')
     w('    if (cmd == "locator") { int pu, rt, a, b; is >> pu >> rt >> a >> b; '
       'if (pu) { user_pump.reset(new dzn::pump()); user_loc.set(*user_pump); } '
@@ -210,14 +213,14 @@ def generate(info):  # pylint: disable=too-many-locals,too-many-statements
     w('    else if (cmd == "construct" || cmd == "construct2") { std::string nm; is >> nm; '
       'std::string before = services_of(user_loc); std::unique_ptr<Shell>& tgt = cmd == "construct" ? sh : sh2;')
     w(f'      try {{ tgt.reset(new Shell({ctor_args}nm)); }} catch (const std::exception& e) {{ '
-      'vf::note("ctor-threw", "\\"what\\":\\"" + vf::esc(e.what()) + "\\""); continue; }')
+      'vf::note("ctor-threw", "\\"msg\\":\\"" + vf::esc(e.what()) + "\\""); continue; }')
     w('      dzn::locator* own = locator_of(*tgt);')
     w('      dzn::pump* pu = own ? own->try_get<dzn::pump>() : user_loc.try_get<dzn::pump>();')
     w('      if (cmd == "construct") vf::S().pump = pu;')
     w('      std::ostringstream f; f << "\\"own_locator\\":" << (own ? "true" : "false")'
       ' << ",\\"comp_got_own_locator\\":" << ((own && vf::S().comp_locator == own) ? "true" : "false")'
       ' << ",\\"comp_got_user_locator\\":" << ((vf::S().comp_locator == &user_loc) ? "true" : "false")'
-      ' << ",\\"comp_services\\":\\""; for (auto& s : vf::S().comp_services) f << s << ";"; '
+      ' << ",\\"comp_services\\":\\"" << (vf::S().comp_locator ? services_of(*vf::S().comp_locator) : std::string("-")); '
       'f << "\\",\\"user_services_before\\":\\"" << before << "\\",\\"user_services_after\\":\\"" '
       '<< services_of(user_loc) << "\\",\\"own_services\\":\\"" << (own ? services_of(*own) : std::string("-"))'
       ' << "\\",\\"pump\\":" << (std::uintptr_t)pu << ",\\"comp_pump\\":" << (std::uintptr_t)vf::S().comp_pump'
@@ -230,12 +233,12 @@ def generate(info):  # pylint: disable=too-many-locals,too-many-statements
     w('    else if (cmd == "bind") { std::string skip; is >> skip; bind_user(skip); }')
     w('    else if (cmd == "client") { std::string id, skip; is >> id >> skip; '
       'try { register_client(id, skip); vf::note("client-ok", "\\"id\\":\\"" + id + "\\""); } '
-      'catch (const std::exception& e) { vf::note("client-threw", "\\"id\\":\\"" + id + "\\",\\"what\\":\\"" + vf::esc(e.what()) + "\\""); } }')
+      'catch (const std::exception& e) { vf::note("client-threw", "\\"id\\":\\"" + id + "\\",\\"msg\\":\\"" + vf::esc(e.what()) + "\\""); } }')
     w('    else if (cmd == "final") { int wp = 0; is >> wp; try { if (wp) sh->FinalConstruct(&parent_meta); '
       'else sh->FinalConstruct(); vf::note("final-ok", std::string("\\"parent_set\\":") + '
       '((comp()->dzn_meta.parent == (wp ? &parent_meta : nullptr)) ? "true" : "false")); } '
-      'catch (const dzn::binding_error& e) { vf::note("final-threw", "\\"type\\":\\"binding_error\\",\\"what\\":\\"" + vf::esc(e.what()) + "\\""); } '
-      'catch (const std::exception& e) { vf::note("final-threw", "\\"type\\":\\"other\\",\\"what\\":\\"" + vf::esc(e.what()) + "\\""); } }')
+      'catch (const dzn::binding_error& e) { vf::note("final-threw", "\\"type\\":\\"binding_error\\",\\"msg\\":\\"" + vf::esc(e.what()) + "\\""); } '
+      'catch (const std::exception& e) { vf::note("final-threw", "\\"type\\":\\"other\\",\\"msg\\":\\"" + vf::esc(e.what()) + "\\""); } }')
     w('    else if (cmd == "call" || cmd == "raise" || cmd == "comp") { std::string p, e; is >> p >> e; do_call(cmd, p, e, ""); }')
     w('    else if (cmd == "mccall") { std::string c, p, e; is >> c >> p >> e; do_call(cmd, p, e, c); }')
     w('    else if (cmd == "pcomp") { std::string p, e; is >> p >> e; dzn::pump* pu = vf::S().pump; '
@@ -243,7 +246,7 @@ def generate(info):  # pylint: disable=too-many-locals,too-many-statements
     w('    else if (cmd == "acall" || cmd == "araise" || cmd == "amccall") { std::string c, p, e; '
       'if (cmd == "amccall") is >> c; is >> p >> e; std::string k = cmd.substr(1); '
       'helpers.emplace_back([k, p, e, c] { try { do_call(k, p, e, c); } catch (const std::exception& x) '
-      '{ vf::note("async-threw", "\\"what\\":\\"" + vf::esc(x.what()) + "\\""); } ++helpers_done; }); }')
+      '{ vf::note("async-threw", "\\"msg\\":\\"" + vf::esc(x.what()) + "\\""); } ++helpers_done; }); }')
     w('    else if (cmd == "join") { for (auto& h : helpers) h.join(); helpers.clear(); vf::note("joined"); }')
     w('    else if (cmd == "probe") { vf::note("probe", "\\"helpers_done\\":" + std::to_string(helpers_done.load()) + "," + vf::ctx()); }')
     w('    else if (cmd == "pause") { vf::S().pump->pause(); paused_posted = vf::S().pump->posted; vf::note("paused", vf::ctx()); }')
@@ -260,7 +263,7 @@ def generate(info):  # pylint: disable=too-many-locals,too-many-statements
     w('    else if (cmd == "quit") break;')
     w('    else vf::note("unknown-command", "\\"cmd\\":\\"" + cmd + "\\"");')
     w('    } catch (const std::exception& e) { vf::note("command-threw", "\\"cmd\\":\\"" + cmd + '
-      '"\\",\\"what\\":\\"" + vf::esc(e.what()) + "\\""); }')
+      '"\\",\\"msg\\":\\"" + vf::esc(e.what()) + "\\""); }')
     w('  }')
     w('  for (auto& h : helpers) h.join();')
     w('  sh2.reset(); sh.reset();')
